@@ -1,64 +1,111 @@
 CHECK = {
     "lean_module": "MidnightZK.Props.C05",
     "harness": "h-c05",
-    "translators": ["c05_params"],
-    "level": "proof",
-    "rule": "one line per compiled-in parameter set (constants, base powers, check_params, well-formed bounds, "
-            "mul/norm bounds), per argument tuple of get_identity_auxiliary_bounds (random, near-gate, u_max "
-            "thresholds), per random evaluation of the real mul/norm gate polynomials, per assigned mul/norm row, "
-            "per field-chip program (5 emulated fields over the BLS12-381 scalar field): one `fp` line (limb values, "
-            "tracked bounds, verdict) and one `fpt` line (foreign-level trace: every Foreign norm / Foreign "
-            "multiplication region with the source of every copied-in limb and the bit length of every range check, "
-            "every group of freshly assigned range-checked limbs, equality / public-input / decomposition events), "
-            "and per BigUint program (widths 1..2048: `big` line, and `bigrc` line = bit length of the range check of "
-            "every limb of every assign_biguint); distinctness by hash of the request line",
-    "explanation": "Lean theorems over an executable model of the foreign-field emulation (auxiliary-bounds function, "
-                   "CRT lift, mul/norm gate identities and witness generation, limb representation and bound "
-                   "bookkeeping, every FieldChip operation on limb vectors) and of the BigUint limb arithmetic. The "
-                   "model is tied to the code by parameter sets regenerated from params.rs (side conditions re-proved "
-                   "by the kernel), by evaluating the REAL gate polynomials at random points against the model's "
-                   "identities, and by running both on the same programs (limb values, tracked bounds, normalisation "
-                   "decisions, rows of the gates, verdict, and the foreign-level trace). The trace is READ BACK from the "
-                   "real synthesis: the programs run on the real NativeGadget/FieldChip with the real decomposition "
-                   "chip behind a transparent logging wrapper (CoreDecompositionInstructions is a public trait), so "
-                   "every assign_less_than_pow2 / assert_less_than_pow2 / decompose_fixed_limb_size call is seen with "
-                   "the bit length really enforced and the cell concerned (behind the native gadget's cache of "
-                   "constrained cells); a recording Assignment backend re-derives region placement and resolves "
-                   "every copy constraint, so each limb copied into a mul/norm region is named by its creation site "
-                   "(assign group, norm output, fixed cell). The Lean emitter (normEvent / mulEvent / freshLimbs in "
-                   "Model/C05/Chip.lean) must print the same events; the end-to-end theorems "
-                   "(norm/mul/normalize/add/sub/assert_equal/is_equal _sound_end_to_end) take exactly these emitted "
-                   "bit lengths as hypotheses. A changed bound (u_max*2, u_max-1, one bit more or less on a limb), a "
-                   "dropped range check, a skipped normalisation or a mis-wired operand changes an fpt line. Tight by "
-                   "design: reordering regions inside one operation or replacing a native instruction by another "
-                   "that creates cells differently does NOT fire (names are by creation site, `o` for native cells); "
-                   "adding an extra normalisation does. The property's oracle is checked "
-                   "directly through the real MockProver: honest witness accepted with the num-bigint result exposed "
-                   "as public input, false assertions / wrong or non-canonical public inputs rejected, every tampered "
-                   "cell of every mul/norm region rejected",
-    "technique": "proof + translation of parameter sets + structural/value correspondence (incl. range-check bit "
-                 "lengths and copy wiring read back from the real synthesis) + tamper sweep (H2)",
-    "trusted_base": [
-        "native gadget instructions used by the foreign chip and the BigUint gadget (range checks, linear "
-        "combinations, is_equal, bit decompositions: property C04) are assumed at their interface",
-        "moduli of secp256k1 and of the Curve25519 scalar field come from external crates; the generated constants "
-        "are compared with what the running code reports on every run",
+    "translators": [
+        "c05_params",
     ],
-    "level_text": "Kernel-checked Lean theorems about an executable model of the foreign-field and BigUint gadgets "
-                  "(all parameter sets on which configure succeeds, all limb/auxiliary assignments), with the model "
-                  "checked against the real code on every run",
-    "level_note": "Trusted: Lean kernel, the correspondence harness and driver; the native gadget (C04) at its "
-                  "interface (assert_less_than_pow2(x, k) enforces x < 2^k; linear combinations and equality hold "
-                  "in the native field). Soundness of mul / div / normalize / assert_equal / is_equal / is_zero is "
-                  "now a theorem from the gate identities, the range checks with the bit lengths AS EMITTED (read "
-                  "back from the real trace on every run) and the tracked limb bounds, for every assignment; lazy "
-                  "add / sub: interval + value theorems (native cells named `o`: their wiring inside native regions "
-                  "is C04's). BigUint: add / mul / sub (underflow => unsatisfiable) / div_rem end-to-end theorems over "
-                  "the carry chain of the model; the range checks of assign_bounded are read back for every "
-                  "assign_biguint (`bigrc` lines), those of normalize's carries and of internal assign_bounded calls "
-                  "only through limb vectors, size bounds and verdicts; mod_exp: correspondence + reference values "
-                  "only (no induction theorem yet). The bit/byte conversions' native decompositions are tied (D "
-                  "events) but have no end-to-end theorem",
+    "level": "proof",
+    "rule": (
+        "one line per compiled-in parameter set (constants, base powers, check_params, well-formed bounds, "
+        "mul/norm bounds), per argument tuple of get_identity_auxiliary_bounds (random, near-gate, u_max "
+        "thresholds), per random evaluation of the real mul/norm gate polynomials, per assigned mul/norm row, "
+        "per field-chip program (5 emulated fields over the BLS12-381 scalar field): one `fp` line (limb "
+        "values, tracked bounds, verdict) and one `fpt` line (foreign-level trace: every Foreign norm / "
+        "Foreign multiplication region with the source of every copied-in limb — creation-site names, and for "
+        "cells computed by a native linear combination their DEFINING ROW `L(coef*source+...;constant)` — and "
+        "the bit length of every range check, every group of freshly assigned range-checked limbs, equality / "
+        "public-input / decomposition events), and per BigUint program (widths 1..2048, incl. "
+        "width-asymmetric operand pairs 1|2, 2|3, 1|11 limbs in both orders through every binary operation): "
+        "`big` line (limbs, size bounds, verdict) and `bigrc` line = for EVERY operation the calls of the "
+        "real decomposition chip in order with the bit length enforced (assign_bounded of inputs and of the "
+        "internal witnesses of sub / div_rem, quotient and remainder of every normalize step, comparisons of "
+        "geq, bit/byte decompositions; a mod_exp is the concatenation over its square-and-multiply chain); "
+        "distinctness by hash of the request line"
+    ),
+    "explanation": (
+        "Lean theorems over an executable model of the foreign-field emulation (auxiliary-bounds function, "
+        "CRT lift, mul/norm gate identities and witness generation, limb representation and bound "
+        "bookkeeping, every FieldChip operation on limb vectors) and of the BigUint gadget (limb arithmetic, "
+        "size-bound bookkeeping, carry chains, square-and-multiply). The model is tied to the code by "
+        "parameter sets regenerated from params.rs (side conditions re-proved by the kernel), by evaluating "
+        "the REAL gate polynomials at random points against the model's identities, and by running both on "
+        "the same programs (limb values, tracked bounds, normalisation decisions, rows of the gates, verdict, "
+        "and the traces). The traces are READ BACK from the real synthesis: the programs run on the real "
+        "NativeGadget/FieldChip/BigUintGadget with the real decomposition chip behind a transparent logging "
+        "wrapper (CoreDecompositionInstructions is a public trait), so every assign_less_than_pow2 / "
+        "assert_less_than_pow2 / decompose_fixed_limb_size call is seen with the bit length really enforced "
+        "and the cell concerned (behind the native gadget's cache of constrained cells); a recording "
+        "Assignment backend re-derives region placement and resolves every copy constraint, so each limb "
+        "copied into a mul/norm region is named by its creation site (assign group, norm output, fixed cell) "
+        "or, when it is the result of a one-row native linear combination (every limb of the lazy add / sub / "
+        "neg / mul_by_constant, assigned_field_from_limb, the tail of add_constants), by that row: "
+        "coefficients (the fixed cells of the row, by annotation and call order), the name of the cell wired "
+        "into every term slot, the constant — terms sorted, so re-ordering the terms of a combination does "
+        "not fire, wiring a different cell or coefficient does. The Lean emitters (normEvent / mulEvent / "
+        "freshLimbs / CellName.lc in Model/C05/Chip.lean; the BM monad of Model/C05/Big.lean: assignBounded, "
+        "normRc, geq, the loop of modExp) must print the same events; the end-to-end theorems take exactly "
+        "these emitted bit lengths as hypotheses: "
+        "norm/mul/normalize/add/sub/assert_equal/is_equal/is_zero/to_le_bits for the field chip, and for "
+        "BigUint the `*_from_constraints` theorems, which quantify over EVERY assignment of the carries / "
+        "quotients / remainders (NormSat: range checks Big.normRc + native identities pin the honest chain; "
+        "completeness: the honest chain passes them) and compose to add (any two limb counts), mul "
+        "(accumulation fold with its tracked bounds: mul_accum_within_bounds), sub, div_rem, mod_mul and — by "
+        "induction over the square-and-multiply loop for every exponent — mod_exp. The value-level mirror of "
+        "the loop (modExpLoopVal) and the three formulations of the product accumulation are re-checked by "
+        "the driver on every modexp / mul of the correspondence. A changed bound (u_max*2, u_max-1, one bit "
+        "more or less on a limb, on a carry, on a comparison), a dropped range check, a skipped normalisation "
+        "or a mis-wired operand changes an fpt / bigrc line. Tight by design: reordering regions inside one "
+        "operation or replacing a native instruction by another that creates cells differently does NOT fire "
+        "for cells named `o`, but DOES for cells named by their defining row (replacing linear_combination by "
+        "add+add_constant in the lazy operations fires: deliberate, the row is what the theorems' value "
+        "equations speak about); swapping the operands of a mod_mul does not fire; adding an extra "
+        "normalisation does. The property's oracle is checked directly through the real MockProver: honest "
+        "witness accepted with the num-bigint result exposed as public input, false assertions / wrong or "
+        "non-canonical public inputs rejected, every tampered cell of every mul/norm region rejected"
+    ),
+    "technique": (
+        "proof + translation of parameter sets + structural/value correspondence (incl. range-check bit "
+        "lengths of every foreign-field and BigUint operation, copy wiring and defining rows of native linear "
+        "combinations, read back from the real synthesis) + tamper sweep (H2)"
+    ),
+    "trusted_base": [
+        (
+            "native gadget instructions used by the foreign chip and the BigUint gadget (range checks, linear "
+            "combinations, is_equal, bit decompositions: property C04) are assumed at their interface"
+        ),
+        (
+            "moduli of secp256k1 and of the Curve25519 scalar field come from external crates; the generated "
+            "constants are compared with what the running code reports on every run"
+        ),
+    ],
+    "level_text": (
+        "Kernel-checked Lean theorems about an executable model of the foreign-field and BigUint gadgets (all "
+        "parameter sets on which configure succeeds, all limb/auxiliary assignments), with the model checked "
+        "against the real code on every run"
+    ),
+    "level_note": (
+        "Trusted: Lean kernel, the correspondence harness and driver; the native gadget (C04) at its "
+        "interface (assert_less_than_pow2(x, k) enforces x < 2^k; linear combinations, products, equality and "
+        "bit decompositions hold in the native field). Field chip: soundness of mul / div / normalize / "
+        "assert_equal / is_equal / is_zero (now at chip level: the low-limbs/top-limb split is mechanised, "
+        "hypotheses on the parameter set kernel-checked for every compiled-in set) is a theorem from the gate "
+        "identities, the range checks with the bit lengths AS EMITTED and the tracked limb bounds, for every "
+        "assignment; lazy add / sub: interval + value theorems, the wiring of their native rows is now "
+        "compared structurally (cells computed by select / add_constants rows / multi-row combinations are "
+        "still `o`). Bit conversions: for every assignment of the bit cells satisfying the native "
+        "decompositions, the returned bits are the binary expansion of a representative of the residue (< "
+        "2^#bits), of THE canonical one when enforce_canonical, and two representations of one residue give "
+        "the same canonical bits (to_le_bits_sound_end_to_end / _respects_residue); bytes and chunks (built "
+        "on the bits by native linear combinations) and assigned_from_le_* are covered by correspondence + "
+        "reference values only. BigUint: add / mul / sub (underflow => unsatisfiable) / div_rem / mod_mul / "
+        "mod_exp are theorems from the constraints for every assignment of carries and witnesses, with the "
+        "range checks read back for every operation (`bigrc`); the native limb sums / products are taken as "
+        "integers (no wrap: the tracked bound of every payload is < NUM_BITS, guard modelled), limb-wise "
+        "equality after resize and the comparison fold (lower_than_sound) enter div_rem as value hypotheses "
+        "(`s = x`, `r < y`); the constraint relations (NormSat, MulSat, DivRemSat, ModExpLoopSat) are "
+        "hand-written mirrors of the emitter's control flow, tied through the events and values the emitter "
+        "prints, not generated from it"
+    ),
     "assumptions": [
         "assert_lower_than_fixed / assign_lower_than_fixed enforce their bound (C04)",
         "each emulated modulus is prime where the model inverts (division, inversion)",
